@@ -123,6 +123,10 @@ FIXED = [
     ("fix: parsing a BLOB from text undoes the escaping", "C19", "blob values 'a''b', 'c\\d', '\\x5c27': print -> parse gave a different value (roundtrip-value-differs@blob, 3 of 8 values)"),
     ("fix: casting a BLOB or VECTOR array", "C20", "types [blob], any cell: COPY .. FROM panicked in the insert operator (todo!(\"cast array\") for BLOB -> BLOB); also `insert into u select b from t`"),
     ("fix: the zero INTERVAL prints as", "C20", "types [interval], cell interval '0' day: exported as an empty field, imported as NULL"),
+    ("fix: EXTRACT of an unsupported field", "C17", "forms `select extract(hour from date '2020-01-01')`, `select extract(day from interval '1' day)`: todo!() in the kernel"),
+    ("fix: a type the engine does not have", "C17", "forms `create table x(a real)`, `select cast(a as time) from t1`, `create table x(a vector)`, `create function g(real) ..`: todo!() in the type conversion"),
+    ("fix: INSERT into a VECTOR(n) column checks the length", "C16", "`insert into vx values (3, null)`: panic in the array builder; `'[1,2]'` / `'[1,2,3,4]'` stored in a VECTOR(3) column, after which GROUP BY / ORDER BY / joins and every scan after a reopen panicked"),
+    ("fix: comparison operators for VECTOR", "C19", "type vector(3): `l.x = r.x` / `l.x < r.x` failed with 'no function eq(Vector, Vector)'"),
     ("fix: nullable block iterator keeps the validity", "C06", "int16 nullable plain, block 32, 81-row pattern, script [next(1), next(7)]: a batch spanning a block boundary lost rows / reported wrong row ids (155 050 cases)"),
 ]
 
